@@ -116,16 +116,47 @@ func (m *Message) readHeader(r io.Reader, buf *bytes.Buffer) (cmd *dict.Command,
 	return cmd, stream, nil
 }
 
-func (m *Message) readBody(r io.Reader, buf *bytes.Buffer, cmd *dict.Command, stream uint) error {
-	var err error
-	var n int
-	b := readerBufferSlice(buf, int(m.Header.MessageLength-HeaderLength))
-	msr, isMulti := r.(MultistreamReader)
-	if isMulti {
+// maxBodyPrealloc bounds the memory reserved for a message body before any
+// of it has arrived; larger bodies grow as their bytes are received, so that
+// a header claiming 16 MB costs the receiver nothing until the peer sends it.
+const maxBodyPrealloc = 64 << 10
+
+// readFull fills b from r, from the given stream when r is multi-streamed.
+func readFull(r io.Reader, b []byte, stream uint) (n int, err error) {
+	if msr, isMulti := r.(MultistreamReader); isMulti {
 		n, _, err = msr.ReadAtLeast(b, len(b), stream)
-	} else {
-		n, err = io.ReadFull(r, b)
+		return n, err
 	}
+	return io.ReadFull(r, b)
+}
+
+// readBodyBytes reads the l bytes of a message body.
+func readBodyBytes(r io.Reader, buf *bytes.Buffer, l int, stream uint) (b []byte, n int, err error) {
+	if l <= maxBodyPrealloc {
+		b = readerBufferSlice(buf, l)
+		n, err = readFull(r, b, stream)
+		return b, n, err
+	}
+	b = make([]byte, maxBodyPrealloc)
+	for {
+		var nn int
+		nn, err = readFull(r, b[n:], stream)
+		n += nn
+		if err != nil || n == l {
+			return b, n, err
+		}
+		size := 2 * len(b)
+		if size > l {
+			size = l
+		}
+		grown := make([]byte, size)
+		copy(grown, b)
+		b = grown
+	}
+}
+
+func (m *Message) readBody(r io.Reader, buf *bytes.Buffer, cmd *dict.Command, stream uint) error {
+	b, n, err := readBodyBytes(r, buf, int(m.Header.MessageLength-HeaderLength), stream)
 	if err != nil {
 		return fmt.Errorf("readBody Error: %v, %d bytes read", err, n)
 	}
